@@ -217,8 +217,22 @@ impl World for ExportFaults {
         "export-faults"
     }
     fn generate(&self, run_seed: u64, tier: Tier) -> ExportCase {
-        let program = gen_log_program(run_seed, tier);
+        let mut program = gen_log_program(run_seed, tier);
         let mut g = rng::stream(run_seed, "faults");
+        if g.chance(0.25) {
+            // a log well beyond the 8 KiB buffer of the export's BufWriter: a loop of several
+            // hundred logged passes with always-firing rules
+            let n = 300 + g.below(400);
+            program = Program {
+                root: vec![Node::While { id: 1, cond: Cond::Scripted { id: 2, outcomes: vec![true; n] }, body: vec![Node::Leaf { id: 3, init_ops: vec![], req: None, ops: vec![Op::Insert(0, 7)] }, Node::Logger { id: 4 }] }],
+                log_rules: Some(vec![
+                    Rule { trigger: Cond::Scripted { id: 5, outcomes: vec![true; n] }, t: 0, kind: ExtractorKind::ValueOf },
+                    Rule { trigger: Cond::Scripted { id: 6, outcomes: vec![true; n] }, t: 1, kind: ExtractorKind::ValueOf },
+                    Rule { trigger: Cond::EveryN { id: 7, t: TAG_IT, n: 2 }, t: TAG_IT, kind: ExtractorKind::IdLens },
+                ]),
+                pre_ops: vec![Op::Insert(1, 3)],
+            };
+        }
         let format = g.pick(&["json", "cbor", "ron"]).to_string();
         let mut plan = IoPlan::default();
         let mut all_offsets = false;
@@ -273,7 +287,9 @@ impl World for ExportFaults {
             return out;
         }
         let plans: Vec<IoPlan> = if case.all_offsets {
-            (0..ref_bytes.len() as u64).map(|o| IoPlan { error_at: Some(o), ..IoPlan::default() }).collect()
+            // every byte offset; for outputs beyond 4 KiB every 97th offset plus the last 200
+            let n = ref_bytes.len() as u64;
+            (0..n).filter(|o| n <= 4096 || o % 97 == 0 || *o + 200 >= n).map(|o| IoPlan { error_at: Some(o), ..IoPlan::default() }).collect()
         } else {
             vec![case.plan.clone()]
         };
